@@ -147,9 +147,19 @@ def top_filters(text):
 
 
 def is_wrapped(node):
+    """`if false { <one command> }`: how the factory renders a disabled filter (the one command is an "if" rule for
+    filters built from definitions, any command for contents handed to replacefilter)."""
     return (node.name == "if" and len(node.tests) == 1 and node.tests[0].name == "false"
-            and not node.tests[0].args and node.block is not None and len(node.block) == 1
-            and node.block[0].name == "if")
+            and not node.tests[0].args and node.block is not None and len(node.block) == 1)
+
+
+def parsed_command(text):
+    """The first command of a script, as the library's own parser builds it."""
+    from sievelib.parser import Parser
+    p = Parser()
+    if not p.parse(text):
+        raise AssertionError("harness: %r does not parse: %s" % (text, p.error))
+    return p.result[0]
 
 
 def unwrap(node):
